@@ -659,6 +659,13 @@ def r8(ctx):
     from . import C13
     ctx.share("C09.R8", C13.r2, "C13.R2", keep=lambda k: "insert" in k, floor=1)
 
+def r9(ctx):
+    """a download policy survives its storage round trip: what set_download_policy writes is the policy it was given - every
+    variant, also one with an empty filter list (`NothingExcept([])` is "download nothing", a missing row reads as "download
+    everything") - and what the reader decodes is that row (the evaluated set / get cells of C15.R2)"""
+    from . import C15
+    ctx.share("C09.R9", C15.r2, "C15.R2", keep=lambda k: "set[" in k or "reader" in k or "get" in k, floor=3)
+
 def run(ctx):
     ctx.run_rule("C09.R1", r1)
     ctx.run_rule("C09.R2", r2)
@@ -668,3 +675,4 @@ def run(ctx):
     ctx.run_rule("C09.R6", r6)
     ctx.run_rule("C09.R7", r7)
     ctx.run_rule("C09.R8", r8)
+    ctx.run_rule("C09.R9", r9)
